@@ -224,6 +224,15 @@ def run(ctx: Ctx):
             rule="postcondition on the unexecuted graph: dependency closure of each output chunk vs blocks holding its labels; provenance sums name each member once",
             nontrivial=lambda c: len(c["chunks"][-1]) >= 2,
         )
+    if getattr(ctx, "only", None) != "proof":
+        from ..rtc.tree_case import tree_cases
+
+        run_bounded(
+            ctx, "C09.rtc.tree_builder", "flox.dask_array_ops._tree_reduce / partial_reduce / get_parts", tree_cases(24 if ctx.quick else 64, 8 if ctx.quick else 12), "vlib.rtc.tree_case:check_tree",
+            bound="EXHAUSTIVE over #blocks 1..%d x split_every 2..%d and the config default x 1-2 batch blocks x two block_index values" % ((24, 8) if ctx.quick else (64, 12)),
+            rule="postcondition on the graph dict: one root per batch index at (.., block_index); the leaves under each root are exactly its batch's blocks 0..n-1, once each, in increasing order; every task combines 1..split_every consecutive blocks of its own batch index; intermediate keys used exactly once; non-trivial = depth >= 2",
+            nontrivial=lambda c: c["nblocks"] > (c["split_every"] or 4), exhaustive=True, chunksize=16,
+        )
     ctx.assume("scipy.sparse incidence/containment algebra inside find_group_cohorts is external; the planner as a whole is decided by the bounded (exhaustive up to the stated size) contract, not by proof")
     ctx.trust("scipy.sparse", "toolz.groupby", "dask graph materialisation", "z3 / cvc5")
     return "other", ("Mixed: tree / block-subset obligations proved on the real source; find_group_cohorts is checked exhaustively up to a size bound (bounded, not proof). " + note)
